@@ -13,7 +13,7 @@ CHECKS = {
             "Small curves y^2=x^3+7 over F_13/F_43 (thorough: +F_67, F_79): the unmodified element.go runs over a stand-in field and Multiply is executed from EVERY projective representation of EVERY point (complete state space of the instance) with 256-bit scalars incl. every k >= 2^255 class, against Z/N_q. Real curve: point alphabet x scalings x scalar alphabet against a math/big affine model, plus Multiply(k) vs the literal k-fold Add chain. Complete for instance/alphabet, not a proof for all 2^256 scalars.",
             "small-scope argument for the step from F_q to F_p (formulas are uniform in the field; stand-in is contract-checked exhaustively); math/big; harness builds operands from raw limbs", "4/C01", MC),
     "C02": ("exhaustive enumeration of all ordered pairs of all projective representations on complete small-curve instances + alphabet pairs on the real curve",
-            "Every ordered pair of every projective representation (incl. every (0:l:0)) of every element of the small curves is fed to the real Add/Subtract; Double/Negate/aliased/nil forms on every representation; oracle Z/N_q. Real curve: all ordered pairs of point alphabet x scalings against the affine chord-tangent law. Complete for the small instances (no exceptional pair can hide there), alphabet-complete on secp256k1.",
+            "Every ordered pair of every projective representation (incl. every (0:l:0)) of every element of the small curves is fed to the real Add/Subtract; Double/Negate/aliased/nil forms on every representation; oracle Z/N_q. Real curve: all ordered pairs of point alphabet x scalings against the affine chord-tangent law. Complete for the small instances (no exceptional pair can hide there), alphabet-complete on secp256k1 (scalings include raw-structured ones: Z whose stored limbs are a single 2^32 / 2^63 / 1). On the instrumented build the invariant 'argument bit-identical' is additionally evaluated at every function entry (transient writes), and the small instance is bound to the code by exhaustive stand-in contract checks, call-for-call trace conformance with the real build (37 scenarios) and replay of all q=13 transitions on secp256k1.",
             "small-scope argument F_q -> F_p; Fiat field arithmetic covered separately by C12", "4/C02", MC),
     "C03": ("exhaustive enumeration of byte strings over small fields + byte-string alphabet product on the real field, against the SEC1 acceptance predicate",
             "Small fields: all 256 prefixes x every x in [0,2q+2), every (x,y) in [0,2q)^2, every 1-byte string, other lengths; real field: lengths 0..70, 256 prefixes x coordinate alphabets incl. x+p / y+p aliases, window around p, off-curve and wrong-root cases; six decoders x two receivers; accept iff canonical, exact point, receiver unchanged on error, never panics.",
@@ -31,13 +31,13 @@ CHECKS = {
             "Every string of the alphabet through Decode/UnmarshalBinary/DecodeHex (lower and upper case) with two prior receivers: accepted iff 32 bytes < n, exact value, distinct errors; Encode canonical and round trip for all of V_n and K; malformed hex rejected.",
             "alphabet-complete", "4/C07", MC),
     "C08": ("bounded exhaustive enumeration of (msg, DST) products against an independent RFC 9380 implementation validated on the RFC vectors",
-            "All messages of length <= 1 (thorough: <= 2) x all 1-byte DSTs plus length alphabets around SHA-256 block boundaries and the 255-byte DST limit, for HashToGroup and EncodeToGroup; oracle = generic SSWU + rational isogeny + literal sum of two mapped points; expander seam; determinism; empty-DST panic; branch classes counted for non-vacuity.",
+            "All messages of length <= 1 (thorough: <= 2) x all 1-byte DSTs plus length alphabets around SHA-256 block boundaries and the 255-byte DST limit, for HashToGroup and EncodeToGroup; oracle = generic SSWU + rational isogeny + literal sum of two mapped points; the expander seam on the COMPLETE product of message lengths 0..520 x DST lengths 1..520 (1100 thorough) and the full functions along lines of it; all 2-step (and DST-varying 3-step) histories in which the caller rewrites one long-lived message/DST buffer between calls; determinism; empty-DST panic; branch classes counted for non-vacuity.",
             "SHA-256 from the standard library is shared by both sides; oracle self-checked against the ten J.8 vectors (u, Q, P)", "4/C08", MC),
     "C09": ("bounded exhaustive enumeration of (msg, DST) products and of 48-byte strings at the reduction seam",
-            "HashToScalar on the (msg, DST) product against OS2IP(expand(msg,DST,48)) mod n; the wide reduction on the 6-limb product of 48-byte strings and windows around multiples of n.",
+            "HashToScalar on the (msg, DST) product and on the complete length product (msg 0..400 x DST 1..400; 1100 thorough) against OS2IP(expand(msg,DST,48)) mod n; buffer-reuse histories; the wide reduction on the 6-limb product of 48-byte strings and windows around multiples of n.",
             "alphabet-complete", "4/C09", MC),
     "C10": ("explicit-state search: closure sweep over every pool state of a small-curve instance (inductive invariant) + breadth-first reachability with concrete-state de-duplication",
-            "Pool of 2 (and 3 for q=13) element variables over the small curves: EVERY tuple of valid representations is a start state and EVERY operation instance (all receiver/argument choices incl. the same variable) is applied by the real code; per transition: receiver == model in Z/N_q, non-receivers bit-identical, validity, Equal/IsIdentity matrix, copy independence, globals unchanged. The explored set is inductive, so all finite histories are covered for the instance; BFS from the initial pool reports reachable states and closure depth.",
+            "Pool of 2 (and 3 for q=13) element variables over the small curves: EVERY tuple of valid representations is a start state and EVERY operation instance (all receiver/argument choices incl. the same variable) is applied by the real code; per transition: receiver == model in Z/N_q, non-receivers bit-identical, validity, Equal/IsIdentity matrix, copy independence, globals unchanged. The explored set is inductive, so all finite histories are covered for the instance; BFS from the initial pool reports reachable states and closure depth. On secp256k1: BFS over a pool of 2 element + 2 scalar variables with 122 operation instances (arithmetic with every receiver/argument choice, codecs, hashing, nil forms, failing decodes, CSelect), concrete-state de-duplication, depth 4 (5 thorough); every q=13 pool state replayed on the real curve.",
             "small-scope argument; scalar and hashing operations in histories are covered on the real curve by C01/C06/C08", "4/C10", MC),
     "C11": ("bounded exhaustive enumeration of a field-element alphabet incl. all three exceptional inputs against the generic RFC algorithms",
             "SSWU and the isogeny called directly on 0, +-sqrt(-1/Z), 1..2^11, p-2^11..p-1, limb products, V_p, RFC u values and negations; exact point, on E', sgn0(y)=sgn0(u); isogeny output on secp256k1 and equal to the rational map; isogeny alone on E' points with small x.",
@@ -52,19 +52,19 @@ CHECKS = {
             "Every member of the scalar alphabet is expanded by the real Bits and compared bit by bit with the integer and with Encode.",
             "alphabet-complete", "4/C14", MC),
     "C15": ("exhaustive enumeration of API functions x argument alphabet x backing-array layouts with whole-buffer snapshots",
-            "Every exported function with a byte-slice parameter x argument values x 40 layouts (offset, spare capacity, clipped/open capacity, two complementary fills): whole backing array unchanged; slice results fresh (no shared memory, overwrite over full capacity harmless); pointer operands bit-identical; globals unchanged. The function table is compared with the exported API parsed from the current tree.",
+            "Every exported function with a byte-slice parameter x argument values x 40 layouts (offset, spare capacity, clipped/open capacity, two complementary fills): whole backing array unchanged; slice results fresh (no shared memory, overwrite over full capacity harmless); pointer operands bit-identical; globals unchanged (also against a baseline taken before the first call into the library). On the instrumented build the invariant 'all shared memory equals its snapshot' is evaluated at every function entry of every operation of the concurrency alphabet, so writes that are undone before the call returns are seen. A hostile-caller prelude overwrites every returned slice and mutates every returned object before the checks run. The function table is compared with the exported API parsed from the current tree.",
             "covers the listed layouts and values; writes of an identical value are caught by the complementary fill", "4/C15", MC),
     "C16": ("stateless model checking: own cooperative scheduler with preemption-bounded DFS over all interleavings at function-entry granularity + footprint enumeration + separate free-running -race pass",
-            "All ordered pairs of a 29-operation alphabet (plus 3-thread and 2-ops-per-thread scenarios) on shared arguments with overlapping slices: every schedule with <= 2 preemptions (<= 1 for long operations) is executed on the instrumented build; every call must return what it returns alone, shared arguments and package-level variables unchanged; schedules are replayed for reproducibility. Accesses between scheduling points are covered by the happens-before race detector in a separate free-running pass over the same bodies.",
+            "All ordered pairs of a 32-operation alphabet (plus 3-thread and 2-ops-per-thread scenarios) on shared arguments with overlapping slices, incl. operations that overwrite the slices they were handed back: every schedule within the preemption bound (2 for short and medium operations, 1 for huge ones; thorough: 3 on a sub-alphabet, and every-function-entry granularity for medium operations) is executed on the instrumented build; every call must return what it returns alone, shared arguments and package-level variables unchanged; schedules are replayed for reproducibility. Accesses between scheduling points are covered by the happens-before race detector in a separate free-running pass over the same bodies, which also runs every pair (a,a), (a,a+1) as the very first use of the library in a fresh process (lazy initialisation). Footprint and watch parts evaluate 'no shared byte, no package-level variable written' after and during every operation.",
             "scheduling points are function entries, not individual memory accesses; memory-model effects below the Go memory model are out of scope", "4/C16", MC),
-    "C17": ("enumeration of link-set configurations as plain binaries (2-class abstraction of all importing programs)",
-            "Five plain (non-test) programs with different link sets are built against the current tree in an external module and each calls the three hashing functions; exit status 0 and oracle bytes expected. Registration of hashes is monotone in the link set, so the minimal program is the worst case.",
+    "C17": ("enumeration of program configurations as plain binaries (3-class abstraction of all importing programs)",
+            "Seven plain (non-test) programs are built against the current tree in an external module and each calls the three hashing functions; exit status 0 and oracle bytes expected: five link sets (registration of hashes is monotone in the link set, so the minimal program is the worst case) and two programs that register their own conformant-but-adversarial SHA-256 (only hash.Hash, Sum allocating, Write split) before resp. after the library's initialisation.",
             "abstraction argument: the property depends on the program only through crypto's hash registry", "4/C17", "exploration"),
     "C18": ("deviation-bounded exhaustive exploration of the entropy source (scripted crypto/rand.Reader)",
-            "Every script of blocks over {0,1,n-1,n,n+1,2^255,2^256-1,pattern} up to the depth bound x 5 delivery modes x fault positions/kinds: result must be the first complete block with value mod n != 0, reduced, canonical, else a panic; a source polled forever after failing is reported.",
+            "Every script of blocks over {0,1,n-1,n,n+1,2^255,2^256-1,pattern} up to the depth bound x 4 prior receiver values x 5 delivery modes x fault positions/kinds: result must be the first complete block with value mod n != 0, reduced, canonical, else a panic; a source polled forever after failing is reported.",
             "rand.Reader is an assignable package variable in the toolchain used; complete up to the depth bound", "4/C18", MC),
     "C19": ("exhaustive comparison of recorded field-operation traces over a bit-deviation-bounded scalar space (instrumented build)",
-            "AST-instrumented copy of the current tree: for 3 points the sequence of internal/field function entries during Multiply(k) must equal that of k=0 for every k within 1 (thorough 2) bit deviations of 0 and of n-1, 0..64 and the boundary alphabet; first divergence is reported.",
+            "AST-instrumented copy of the current tree: for 4 fixed points (G, a re-scaled 2G, a non-canonical identity, the zero value of the Element type) the sequence of internal/field function entries during Multiply(k) must equal that of k=0 for every k within 1 (thorough 2) bit deviations of 0 and of n-1, 0..64 and the boundary alphabet; first divergence is reported.",
             "field-operation level only (not instruction-level or micro-architectural constant time); closures are not instrumented", "4/C19", MC),
 }
 
